@@ -52,3 +52,7 @@ package ipc
 //@ func (*dialer).GetOption
 //@   ensures n == mangos.OptionMaxRecvSize ==> isnil(result1) && result0 == iface(d.maxRcvSize)
 //@   ensures n != mangos.OptionMaxRecvSize ==> result1 == mangos.ErrBadOption && isnil(result0)
+//@
+//@ func (*listener).removeStaleIPC
+//@   ghost derr = result1 at call:DialTimeout#1
+//@   ensures called("DialTimeout") && isnil(derr) ==> called("Close")
